@@ -68,6 +68,7 @@ var (
 	maxRec   int
 	siteHit  []uint32 // per site: number of switches taken there
 	nSpin    uint64
+	limit    uint64 // logical step bound of the run (0 = none)
 	onceTab  [64]onceState // no map: runtime map operations report to the race detector even from norace code
 	onceN    int
 )
@@ -118,6 +119,7 @@ func Setup(n, ns int, p *Plan, count bool, record int) {
 	ordNext = 0
 	quantum, qLeft = 0, 0
 	lowest = 0
+	limit = 0
 	onceN = 0
 	if p != nil {
 		for i := 0; i < n && i < len(p.Prio); i++ {
@@ -181,6 +183,15 @@ func pickNext() int {
 	return best
 }
 
+// StepBound is the panic value raised in a task when the run exceeds its
+// logical step bound: a call that does not return under this schedule.
+const StepBound = "simsched: logical step bound exceeded (call does not return under this schedule)"
+
+// SetLimit bounds the number of yields of the current run.
+//
+//go:norace
+func SetLimit(n uint64) { limit = n }
+
 // Stop ends a run.
 //
 //go:norace
@@ -230,6 +241,9 @@ func Y(site int) {
 		return
 	}
 	ord++
+	if limit > 0 && ord > limit {
+		panic(StepBound)
+	}
 	me := turn
 	c := counts[me][site] + 1
 	counts[me][site] = c
@@ -295,6 +309,9 @@ func spinYield() {
 	// a task that cannot take a lock behaves like one that hit a change
 	// point: its priority drops below all others
 	ord++
+	if limit > 0 && ord > limit {
+		panic(StepBound)
+	}
 	me := turn
 	lowest--
 	prio[me] = lowest
